@@ -38,6 +38,7 @@ class Connection:
     if self.is_connected():
       raise gfapy.RuntimeError(
         "Line {} is already connected to a GFA instance".format(self))
+    self._check_self_reference()
     previous = gfa._search_duplicate(self)
     if previous:
       # a virtual line is a placeholder for a line of the same type,
@@ -48,7 +49,6 @@ class Connection:
       else:
         return self._process_not_unique(previous)
     else:
-      self._check_self_reference()
       self._check_segment_references(gfa)
       self._gfa = gfa
       self._initialize_references()
